@@ -1,8 +1,10 @@
 package sim
 
 import (
+	"bytes"
 	"fmt"
 	"math"
+	"math/big"
 	"sort"
 
 	"github.com/yaricom/goNEAT/v4/experiment"
@@ -18,7 +20,7 @@ func init() {
 		RealParts:  []string{"experiment.Floats, Experiment / Trial / Generation aggregate accessors, Generation.FillPopulationStatistics", "Experiment.Execute producing the records (sequential executor, fake clock)"},
 		StubParts:  []string{"GenerationEvaluator (scripted)", "wall clock"},
 		Assumes:    []string{"reference meanings are the accessor documentation: solved count = trials with a solved generation; per-trial best = the generation champion of maximal fitness (ties: any of them); winner statistics = first solved generation, averaged over solved trials, -1 when none; trials left unrecorded by an aborted run are zero-valued records", "relative tolerance 1e-9"},
-		ProbeNames: []string{"probe.series.unsorted", "probe.series.empty", "probe.series.single", "probe.series.ties", "probe.experiment.cut_short", "probe.experiment.mixed_solved_unsolved", "probe.experiment.none_solved", "probe.best_champion_tie", "probe.record_surgery"},
+		ProbeNames: []string{"probe.series.unsorted", "probe.series.empty", "probe.series.single", "probe.series.ties", "probe.experiment.cut_short", "probe.experiment.mixed_solved_unsolved", "probe.experiment.none_solved", "probe.best_champion_tie", "probe.record_surgery", "probe.experiment.all_zero_fitness", "probe.read_into_used_object", "probe.series.large_offset"},
 	})
 }
 
@@ -53,11 +55,34 @@ func refSeries(x []float64) refStats {
 		}
 	}
 	r.mean = r.sum / float64(n)
-	ss := 0.0
-	for _, v := range x {
-		ss += (v - r.mean) * (v - r.mean)
+	// the variance is taken in 256-bit arithmetic: in float64 the textbook formula itself loses digits for series of
+	// large magnitude and small spread, and the reference must not be the less accurate side
+	if n == 1 {
+		r.variance = math.NaN() // 0/0: the unbiased estimator is undefined
+	} else if math.IsInf(r.sum, 0) || math.IsNaN(r.sum) {
+		r.variance = math.NaN()
+	} else {
+		const prec = 256
+		bsum := new(big.Float).SetPrec(prec)
+		for _, v := range x {
+			bsum.Add(bsum, new(big.Float).SetPrec(prec).SetFloat64(v))
+		}
+		bmean := new(big.Float).SetPrec(prec).Quo(bsum, new(big.Float).SetPrec(prec).SetInt64(int64(n)))
+		bss := new(big.Float).SetPrec(prec)
+		for _, v := range x {
+			d := new(big.Float).SetPrec(prec).Sub(new(big.Float).SetPrec(prec).SetFloat64(v), bmean)
+			bss.Add(bss, d.Mul(d, d))
+		}
+		bss.Quo(bss, new(big.Float).SetPrec(prec).SetInt64(int64(n-1)))
+		r.variance, _ = bss.Float64()
+		// where a squared deviation leaves the float64 range (deviations beyond 1e150) the textbook evaluation in
+		// float64 overflows: such series are not judged (the comparison below skips an infinite reference and counts it)
+		for _, v := range x {
+			if math.Abs(v-r.mean) > 1e150 {
+				r.variance = math.Inf(1)
+			}
+		}
 	}
-	r.variance = ss / float64(n-1) // n = 1: 0/0 = NaN, the unbiased estimator is undefined
 	r.std = math.Sqrt(r.variance)
 	s := append([]float64(nil), x...)
 	sort.Float64s(s)
@@ -151,6 +176,14 @@ func scenarioC19(c *RunCtx) {
 	}
 	s := DrawExpSim(c, maxTrials, maxGens, maxPop, false)
 	s.Opts.CompatThreshold = 0.2 + 2*t.Float("ct") // several species => series with several elements
+	// fitness need not be positive anywhere: all-zero and small-integer (ties, zeros) landscapes are legal
+	switch t.Pick("zeroFitness", 5, 1, 1) {
+	case 1:
+		s.Land = &Landscape{Kind: LandZero, Seed: 1}
+		c.Count("probe.experiment.all_zero_fitness")
+	case 2:
+		s.Land = &Landscape{Kind: LandTies, Seed: uint64(t.Draw("ties.seed", 1<<20))}
+	}
 	switch t.Pick("cut", 3, 1, 1) {
 	case 1:
 		s.Faults = []FaultSpec{{Kind: FaultEvalError, Trial: t.Draw("f.trial", s.Opts.NumRuns), Gen: t.Draw("f.gen", s.Opts.NumGenerations)}}
@@ -264,8 +297,62 @@ func scenarioC19(c *RunCtx) {
 			}
 		}
 		checkSeries(c, x, "a synthetic series")
+		// large magnitude, small spread (fitness such as 1e8 minus a small error): shortcuts that subtract large
+		// squares lose every significant digit here, the two-pass definition does not
+		off := []float64{1e6, 1e8, 1e10, -3e10, 1e12}[t.Draw("synthetic.offset", 5)]
+		y := make(experiment.Floats, t.Range("synthetic.m", 2, 12))
+		for i := range y {
+			y[i] = off + float64(rng.Intn(9)+1)/4
+		}
+		checkSeries(c, y, "a synthetic series of large magnitude and small spread")
+		c.Count("probe.series.large_offset")
 	}
 
+	checkAggregates(c, exp, ctx)
+	// The same record, saved and then read into an experiment object that was used before (it holds another experiment
+	// whose winner statistics were queried, so every cache an accessor may keep is warm): the aggregates of what is
+	// recorded now must not depend on what the object held earlier.
+	if len(exp.Trials) > 0 && t.Chance("reusedObject", 1, 3) {
+		c.Count("probe.read_into_used_object")
+		var buf bytes.Buffer
+		var werr error
+		c.LibSoft("Experiment.Write", func() { werr = exp.Write(&buf) })
+		if werr == nil {
+			used := &experiment.Experiment{Id: 99, Name: "used"}
+			// the earlier content: the same trials with other winners, all accessors called once
+			used.Trials = make(experiment.Trials, len(exp.Trials)+t.Draw("used.extra", 2))
+			for i := range used.Trials {
+				src := exp.Trials[i%len(exp.Trials)]
+				used.Trials[i].Id = i
+				used.Trials[i].Generations = append(experiment.Generations(nil), src.Generations...)
+				for gi := range used.Trials[i].Generations {
+					g := &used.Trials[i].Generations[gi]
+					if g.Champion != nil && gi == 0 {
+						g.Solved, g.WinnerNodes, g.WinnerGenes, g.WinnerEvals, g.Diversity = true, 41+i, 43+i, 4700+i, 17+i
+					}
+				}
+			}
+			c.LibSoft("accessors of the earlier content", func() {
+				for i := range used.Trials {
+					used.Trials[i].WinnerStatistics()
+					used.Trials[i].Solved()
+				}
+				used.AvgWinnerStatistics()
+				used.BestFitness()
+				used.TrialsSolved()
+			})
+			var rerr error
+			c.LibSoft("Experiment.Read", func() { rerr = used.Read(bytes.NewReader(buf.Bytes())) })
+			if rerr == nil {
+				checkAggregates(c, used, func() string { return ctx() + " (record read into a previously used experiment object)" })
+			}
+		}
+	}
+	_ = series
+}
+
+// checkAggregates recomputes every experiment- and trial-level aggregate from the recorded generations.
+func checkAggregates(c *RunCtx, exp *experiment.Experiment, ctx func() string) {
 	// ----- aggregates recomputed from the recorded generations -----
 	nT := len(exp.Trials)
 	solved := 0
@@ -408,5 +495,4 @@ func scenarioC19(c *RunCtx) {
 			c.Fail("aggregate:BestComplexity", "BestComplexity()[%d] = %v is not nodes+links of a best champion's phenotype\n%s", ti, gotBestCx[ti], ctx())
 		}
 	}
-	_ = series
 }
